@@ -189,7 +189,7 @@ fn worker(sh: &Shared, seed: u64, round: u64, t: usize, ops: usize, shared_sid: 
 
 pub fn run(a: &Args) -> Report {
     let mut rep = Report::new();
-    let rounds = a.n(200, 5000);
+    let rounds = a.n(2000, 20000);
     let ops = if a.scale < 0.05 { 4 } else { 24 };
     let thread_counts: Vec<usize> = if a.scale < 0.05 { vec![3] } else { vec![2, 4, 8, 16] };
     let mut overlap_sets: HashSet<Vec<(u8, u8)>> = HashSet::new();
@@ -243,7 +243,7 @@ pub fn run(a: &Args) -> Report {
     {
         let mut rng = Rng::derive(a.seed, 0xC09C, 0);
         let mut cx = super::c10::Cx { rep: &mut rep, seed: a.seed, prop: "C09" };
-        super::c10::tcp_server_concurrent(&mut cx, &mut rng, a.n(120, 2000));
+        super::c10::tcp_server_concurrent(&mut cx, &mut rng, a.n(1200, 10000));
     }
     rep.extra.insert("interleavings".into(), json!({"distinct_overlap_patterns": overlap_sets.len(), "peak_threads_overlapping": max_conc, "rounds": rounds}));
     rep.mon("distinct_overlap_patterns", overlap_sets.len() as u64);
